@@ -28,21 +28,49 @@ CHECKS = {
          "Every argument tuple of the 19 specific constructors and the complete data grid of the 3 generic ones for 3 implementations, test_util shorthands against the factory and through out-of-range values in every position.",
          "Trusted: the harness's table oracle.", "4 C06"),
 }
-PENDING = {
- "C07": "check under construction in this round (14-bit CC encoder sweep x reachable scanner states)",
- "C08": "check under construction in this round (concrete fixpoint of the 14-bit CC scanner)",
- "C09": "check under construction in this round ((N)RPN encoder sweep)",
- "C10": "check under construction in this round",
- "C11": "check under construction in this round",
- "C12": "check under construction in this round",
- "C13": "check under construction in this round",
- "C14": "check under construction in this round",
- "C15": "check under construction in this round",
- "C16": "check under construction in this round",
- "C17": "check under construction in this round",
- "C18": "check under construction in this round",
- "C19": "check under construction in this round",
+MORE = {
+ "C07": (True, MC, "exhaustive enumeration of the 14-bit CC message space x every reachable concrete scanner state (explicit-state fixpoint of the real scanner)",
+         "Encoder: all 16x32x16384 messages and all 128 controller numbers for the panic condition. Inversion: the complete concrete reachable state set of the real scanner on a channel (4097 states, from the xs fixpoint) x every message of that channel (2.1e9 state-message cases on one channel in the quick tier, on all 16 in thorough).",
+         "One channel at a time; the other 15 idle (isolation is C15).", "4 C07"),
+ "C08": (True, MC, "explicit-state model checking of the real scanner to a complete concrete fixpoint against a reference model",
+         "Complete concrete reachability fixpoint of the real ControlChange14BitMessageScanner per channel (all 64x128 contributing inputs, reset, non-contributing class) in product with the statement's reference model; every transition executes the real feed/reset; every BFS path re-derived on a fresh object; stateright cross-count in thorough.",
+         "Trusted: the reference model (one Option<(n,v)>). One channel at a time.", "4 C08"),
+ "C09": (True, SWEEP, "bounded-exhaustive enumeration of constructor inputs against the statement's slot layout",
+         "Quick: every number x boundary values and every value x boundary numbers on every channel, all 8 constructors, both byte orders, Raw and Structured; thorough: the full ~3.4e10 product (wall-capped, cap reported).",
+         "Trusted: the harness's encoding table.", "4 C09"),
+ "C10": (True, MC, "exhaustive enumeration of messages and running forms from every state of an explicit-state fixpoint of the real scanner",
+         "Every state of the abstract reachability fixpoint of the real scanner x ~1000 boundary messages through the real encoder; running forms up to k=4 / k=3 from every such state; four dirty states x per-dimension complete message sets (all messages in thorough).",
+         "Byte-value abstraction for the prior states (values {0,1,127}; 8 values in thorough); messages carry values outside that domain so leaks are visible.", "4 C10"),
+ "C11": (True, MC, "explicit-state model checking of the real scanner against the statement's reference model (abstract fixpoint + concretisation probes; full concrete fixpoint in thorough)",
+         "Reachability fixpoint of the real ParameterNumberMessageScanner x reference model, all 8x128 concrete inputs applied from every reached state; thorough adds the complete concrete fixpoint (4.3M states, 4.4e9 transitions) on one channel and a stateright cross-count.",
+         "Byte-value abstraction in the quick tier (DESIGN 3.3).", "4 C11"),
+ "C12": (True, MC, "explicit-state model checking of the real scanner x a generator automaton of the documented grammar under a mock clock; exhaustive encode-feed-poll from every state of the observer fixpoint; hooked-vs-unhooked transcript conformance",
+         "Fixpoint of real polling scanner x grammar generator (timeouts 0, 2 ms) with early/late polls, ticks and non-contributing messages anywhere; encode->feed->poll from every state of the C14 fixpoint x ~1000 messages x both byte orders; the hook is bound to the shipped build by an all-sequences transcript comparison with the real-clock build.",
+         "Mock clock hook (add-only, cfg-guarded); byte-value abstraction; ages saturate at CAP.", "4 C12"),
+ "C13": (True, MC, "explicit-state model checking of the real scanner x history observer under a mock clock, timeouts {0, 2 ms, inf}",
+         "Fixpoint over feeds, polls, resets and 1 ms ticks; rules R1-R5 judged on every transition; every feed re-executed at four later instants; CAP-doubling rerun and stateright cross-count in thorough.",
+         "Mock clock hook; byte-value abstraction with concretisation probes; age saturation (cross-checked by doubling).", "4 C13"),
+ "C14": (True, MC, "explicit-state model checking of the real scanner x history observer (literal reading of the statement's clauses P1-P7)",
+         "Same product as C13 with the no-fabrication / no-duplication / no-loss rules; malformed and mixed-kind traffic is part of the alphabet.",
+         "Mock clock hook; byte-value abstraction with concretisation probes; age saturation.", "4 C14"),
+ "C15": (True, MC, "explicit-state model checking of a two-channel product (multi-channel scanner vs two solo scanners) for channel pairs, all three scanners",
+         "Fixpoint of (M, A, B) per channel pair with distinct per-channel values, system messages that look like (N)RPN traffic, third-channel traffic, polls and ticks; quick: 14 pairs incl. all {c, c+8}; thorough: all 120 pairs.",
+         "Two simultaneously active channels (plus a third only in M); more than two active channels only pairwise.", "4 C15"),
+ "C16": (True, MC, "exhaustive enumeration of non-contributing messages at every state of the scanners' explicit-state fixpoints; exhaustive predicate tables",
+         "Every state of each scanner's abstract fixpoint x ~20k-50k non-contributing messages: no report and == state; predicates for all 128 controller numbers; converse link between predicate and observed behaviour.",
+         "Derived PartialEq is the notion of 'equal state'. Data-byte grid of 13 values for non-CC messages in quick (full 128^2 in thorough).", "4 C16"),
+ "C17": (True, MC, "explicit-state fixpoints with reset/copy probes in every reachable state and replay of every BFS path on a fresh object",
+         "reset()==new in every reachable state (complete concrete state space for the 14-bit scanner), copies evolve identically, every path re-derived on a fresh scanner (catches state outside the value), new()==default().",
+         "Derived PartialEq compares all state.", "4 C17"),
+ "C18": (True, SWEEP, "exhaustive re-execution of the API domains and scanner fixpoints inside allocation-counting regions and catch_unwind in an unoptimised build, three configurations",
+         "Counting #[global_allocator] + catch_unwind around every API region in opt-level-0 builds of configurations std (mock clock), no-default-features and real clock; documented panics must occur.",
+         "Counts allocations made on the calling thread through the global allocator; does not see stack usage.", "4 C18"),
+ "C19": (True, SWEEP, "bounded-exhaustive enumeration of deserializer inputs (primitive value deserializers and serde_json::Value trees)",
+         "Every u8/i8/u16/i16 and boundary/truncation 32/64-bit values for the six integer types; composite types over boundary sets containing the first invalid value of every field, all variants; round trips of natural representations.",
+         "serde_json::Value is used as the generic self-describing deserializer; other data formats are assumed to behave like it.", "4 C19"),
 }
+CHECKS.update(MORE)
+PENDING = {}
 
 def main():
     hooks_commits = subprocess.run(["git", "-C", "/repo", "log", "--format=%H", "--grep=helgoboss_midi_verif"],
@@ -78,7 +106,7 @@ def main():
              "kind_free_text": "explicit-state breadth-first search to a fixpoint whose transition function calls the real scanner methods; reference model / history observer in Rust; paths re-derived on fresh objects"},
             {"name": "xs-sweep", "path": "/verif/common", "serves_properties": [c["property_id"] for c in checks if c["engine"] == "xs-sweep"],
              "kind_free_text": "complete enumeration of a finite input domain against an independent reference (depth-1 bounded-exhaustive exploration)"},
-            {"name": "stateright", "path": "/verif/xs/src/sr.rs", "serves_properties": [],
+            {"name": "stateright", "path": "/verif/xs/src/sr.rs", "serves_properties": ["C08", "C11", "C13", "C14"],
              "kind_free_text": "second, independently written BFS (stateright 0.31) over the same System; unique-state counts must agree (thorough tier)"},
         ],
         "checks": checks,
